@@ -3,6 +3,7 @@ package main
 import (
 	"bytes"
 	"fmt"
+	"os"
 	"time"
 
 	"github.com/ethereum/go-ethereum/common"
@@ -83,10 +84,7 @@ func (s *sut) readIndex() (*snapshotState, bool) {
 					st.noReceipts = map[common.Hash]bool{}
 				}
 				st.noReceipts[hash] = true
-				if !s.reportedNoReceipts[hash] {
-					s.reportedNoReceipts[hash] = true
-					s.viol("I3:canonical-block-without-receipts", fmt.Sprintf("canonical block %s has %d transactions but %d stored receipts", mb, ntx, len(rs)), nil)
-				}
+				st.noReceiptsList = append(st.noReceiptsList, mb)
 			}
 		}
 		st.canon = append(st.canon, mb)
@@ -103,7 +101,14 @@ func (s *sut) readIndex() (*snapshotState, bool) {
 		if hash := rawdb.ReadCanonicalHash(db, n); hash != (common.Hash{}) {
 			// not fatal: the chain below is consistent; dependent lookups are not judged again
 			st.staleAbove = true
-			s.viol("I1:stale-canonical-above-head", fmt.Sprintf("canonical hash %x at #%d above the head header #%d (head block #%d)", hash, n, hh.Number, h.Number), nil)
+			fp := "I1:stale-canonical-above-head"
+			if s.staleIsHeaderChainLeftover(st, hh.Number.Uint64()) {
+				// known finding F2: the header chain was ahead of the (rewound) head block and
+				// writeHeadBlock moved the head header back onto the same chain without removing
+				// the header chain's number->hash entries above it
+				fp = "I1:stale-canonical-above-head:header-chain-ahead-of-rewound-block"
+			}
+			s.viol(fp, fmt.Sprintf("canonical hash %x at #%d above the head header #%d (head block #%d)", hash, n, hh.Number, h.Number), nil)
 			break
 		}
 		if got := bc.GetCanonicalHash(n); got != (common.Hash{}) {
@@ -290,7 +295,19 @@ func (s *sut) checkLookups(st *snapshotState) {
 			continue // consequence of I3:canonical-block-without-receipts
 		}
 		if n >= uint64(len(st.canon)) || st.canon[n].hash() != lookup.BlockHash {
-			s.viol("I3:lookup-resolves-noncanonical", fmt.Sprintf("tx %x resolves to block #%d %x which is not canonical", h, n, lookup.BlockHash), map[string]any{"tx": h.Hex()})
+			s.debugLookup(h, st)
+			fp := "I3:lookup-resolves-noncanonical"
+			if lookup.BlockHash != rawdb.ReadCanonicalHash(s.db, n) {
+				// served from the in-memory lookup cache; the database does not resolve it this way
+				fp += ":stale-cache"
+				switch {
+				case s.importedUnderHeaderChain:
+					fp += ":import-under-header-chain-ahead" // consequence of known finding F2
+				case s.lastKind == "sethead" && s.prev != nil && n < uint64(len(s.prev.canon)) && s.prev.canon[n].hash() == lookup.BlockHash:
+					fp += ":sethead-races-with-reader" // SetHead purges the cache without taking txLookupLock
+				}
+			}
+			s.viol(fp, fmt.Sprintf("tx %x resolves to block #%d %x which is not canonical", h, n, lookup.BlockHash), map[string]any{"tx": h.Hex()})
 			continue
 		}
 		mb := st.canon[n]
@@ -390,6 +407,7 @@ func (s *sut) checkAll(what string, _ *snapshotState, _ *opResult) *snapshotStat
 	if st == nil {
 		return nil
 	}
+	s.reportNoReceipts(st, nil)
 	s.cur = st
 	s.checkState(st.canon[st.headNum])
 	return st
@@ -433,4 +451,48 @@ func (s *sut) lookupSample(st *snapshotState) []common.Hash {
 		}
 	}
 	return out
+}
+
+// staleIsHeaderChainLeftover classifies canonical entries found above the head header: true iff
+// before the operation the header chain was ahead of the head block and every entry above the new
+// head header is the old header chain's entry (the new head may lie on that chain or on another
+// branch: in both cases the import extended the lower head block without invoking reorg()).
+func (s *sut) staleIsHeaderChainLeftover(post *snapshotState, hdrNum uint64) bool {
+	pre := s.cur
+	if os.Getenv("C38_DEBUG") != "" && pre != nil {
+		fmt.Printf("DEBUG stale classify: pre head block #%d header #%d, post header #%d same-chain=%v\n", pre.headNum, len(pre.canon)-1, hdrNum, hdrNum < uint64(len(pre.canon)) && pre.canon[hdrNum] == post.canon[hdrNum])
+	}
+	if pre == nil || uint64(len(pre.canon)-1) <= pre.headNum {
+		return false
+	}
+	if hdrNum >= uint64(len(pre.canon)) {
+		return false
+	}
+	for n := hdrNum + 1; n <= s.t.maxNum+3; n++ {
+		hash := rawdb.ReadCanonicalHash(s.db, n)
+		if hash == (common.Hash{}) {
+			continue
+		}
+		if n >= uint64(len(pre.canon)) || pre.canon[n].hash() != hash {
+			return false
+		}
+	}
+	return true
+}
+
+// reportNoReceipts reports canonical blocks without receipts found by readIndex. adopted holds
+// the blocks that, before an import, were stored without receipts while their state was
+// available (known finding F3: such a block is adopted as "known" without execution).
+func (s *sut) reportNoReceipts(post *snapshotState, adopted map[common.Hash]bool) {
+	for _, mb := range post.noReceiptsList {
+		if s.reportedNoReceipts[mb.hash()] {
+			continue
+		}
+		s.reportedNoReceipts[mb.hash()] = true
+		fp := "I3:canonical-block-without-receipts"
+		if adopted[mb.hash()] {
+			fp = "I3:canonical-block-without-receipts:known-block-adopted-without-execution"
+		}
+		s.viol(fp, fmt.Sprintf("canonical block %s has %d transactions but no stored receipts", mb, len(mb.block.Transactions())), nil)
+	}
 }
